@@ -199,10 +199,11 @@ pub fn gen_len(r: &mut Rng, allow_big: bool) -> usize {
     }
 }
 
-const MULTI: [&str; 12] = ["é", "ß", "Ж", "中", "日本", "𝄞", "😀", "\u{0}", ".", "\"", "\\", "\u{7f}"];
+const MULTI: [&str; 16] = ["é", "ß", "Ж", "中", "日本", "𝄞", "😀", "\u{0}", ".", "\"", "\\", "\u{7f}", "\u{fffd}", "\\/", "\n", "\u{1b}"];
 
 /// strings that look like something else: JSON text, key-serialisation (PASERK) prefixes, tokens
-pub const LOOKALIKES: [&str; 22] = [
+pub const LOOKALIKES: [&str; 26] = [
+    "^https?:\\/\\/x", "a\\/b", "\\/", "<\\/script>",
     "{}", "[]", "[1,2,3]", "{\"a\":1}", "{\"data\":\"x\"}", "null", "true", "123", "\"q\"", "[\"a\",\"b\"]", " {}", "{} ",
     "k4.local-wrap.pie.AAAAAAAAAAAAAAAAAAAAAAAAAAAAAAAAAAAAAAAAAAAAAAAA", "k4.secret-wrap.pie.AAAA", "k2.localisation", "k4.public.AAAAAAAAAAAAAAAAAAAAAAAAAAAAAAAAAAAAAAAAAAA",
     "k3.local.x", "k1.secret-pw.y", "v4.local.AAAA", "v2.public.AAAA.AAAA", "{\"kid\":\"k4.lid.abc\"}", "{\"kid\":\"x\",\"vdata\":\"good\",\"sub\":\"good\",\"iat\":\"x\"}",
@@ -294,12 +295,16 @@ pub fn gen_json(r: &mut Rng, depth: u32) -> Value {
     match r.below(top) {
         0 => Value::Null,
         1 => Value::Bool(r.chance(1, 2)),
-        2 => match r.below(6) {
+        2 => match r.below(10) {
             0 => json!(0),
             1 => json!(-1),
             2 => json!(i64::MAX),
             3 => json!(i64::MIN),
             4 => json!(u64::MAX),
+            // integers no f64 can hold exactly, and the first ones beyond i64
+            5 => json!(*r.pick(&[9_007_199_254_740_993i64, -9_007_199_254_740_993, 1_541_815_603_606_036_481, 9_223_372_036_854_775_805, 4_611_686_018_427_387_905])),
+            6 => json!(*r.pick(&[9_223_372_036_854_775_808u64, 9_223_372_036_854_775_809, 18_446_744_073_709_551_613, 10_000_000_000_000_000_001])),
+            7 => json!((r.next() >> 1) as i64 | 1),
             _ => json!(r.range(-1_000_000, 1_000_000) as i64),
         },
         3 => {
@@ -468,7 +473,7 @@ pub fn non_timestamp_value(r: &mut Rng) -> Value {
 /// seconds / milliseconds around `now` (a lenient reader must not take them for instants)
 pub fn non_timestamp_value_at(r: &mut Rng, now: i128) -> Value {
     let secs = (now / civil::NS) as i64;
-    match r.below(20) {
+    match r.below(22) {
         0 => json!(12345),
         1 => json!(secs - 3600),
         2 => json!(true),
@@ -488,6 +493,7 @@ pub fn non_timestamp_value_at(r: &mut Rng, now: i128) -> Value {
         16 => json!((secs + 3600) as f64 + 0.5),
         17 => json!(-1),
         18 => json!({"exp": "2999-01-01T00:00:00Z"}),
+        19 => json!(*r.pick(&["infinity", "-infinity", "Infinity", "never", "none", "NaN", "forever", "max", "0", "null", "false", "*", "now", "9999"])),
         _ => Value::String(ascii!(r, 1 + r.usize(12))),
     }
 }
